@@ -50,12 +50,14 @@ func run(c *core.Ctx) {
 		"lines are drawn per case from 10 start/continue regexp families (anchored, unanchored, negate, match-all, empty-match, overlapping, case-insensitive, multi-byte), from the join_template vocabularies (the plugin's sample traces + near misses) or are CRI partial/final chunks; " +
 		"payloads carry escapes, control characters, multi-byte runes, empty values, long values; every value is tagged with source/stream/index. " +
 		"A reference model per (source, stream) decides every output event (ids, joined bytes, other members, order, no loss, no duplicate, no foreign bytes). " +
+		"In a third of the join cases and in a family of its own (several sources/streams on exactly 1 and 2 processors) the action carries match_fields (and / or / and_prefix / or_prefix / regexp / match_invert) or do_if, and 5-35 % of the events - also in the middle of runs - do not satisfy them. The output holds every event for 0-32 later events before it encodes and commits it. " +
 		"A split of a run is accepted only where the harness's own monotonic clock shows a feeder gap >= event_timeout (or, for k8s, where split_event_size justifies it). " +
 		"distinct_nontrivial = distinct (kind, pattern family, run-length bucket, how the run ended, empty continuation, limit hit, template) shapes of runs that were really observed at the output, plus distinct case configurations")
 	c.Assume("Go's regexp package defines what `start`/`continue` match (the reference classifies with the same configured expressions; the state machine is what is tested)")
 	c.Assume("join_template: the documented expressions in template/template.go (plus the two alternatives named in the code comments) define the templates on the vocabulary used here, which avoids the documented 'only first occurrence counts' corners")
 	c.Assume("k8s-multiline: the 128 KiB look-ahead of split_event_size is part of the documented 'not a strict rule'")
-	c.Assume("the monitoring output copies the encoded event before Commit; In() call/return times are taken by the feeder with the monotonic clock")
+	c.Assume("the monitoring output behaves like a batching output: it keeps the event itself (un-encoded) until K later events arrived or it has been idle for 15 ms, encodes it then (this late encoding is judged) and commits; the encoding taken inside Out is compared with it; In() call/return times are taken by the feeder with the monotonic clock")
+	c.Assume("match_fields / do_if on the joining action: an event that does not satisfy them passes unchanged while no run is open; while a run is open both readings are accepted (classified like a matching event, as the code does; or ends the run and passes unchanged) - it may never overtake the open run, leave it open, get lost or be duplicated")
 
 	nJoin, nTpl, nK8s := c.N(66, 660), c.N(36, 360), c.N(48, 480)
 	rng := c.Rand("cases")
@@ -71,6 +73,13 @@ func run(c *core.Ctx) {
 	}
 	for j, n := 0, c.N(9, 60); j < n; j++ {
 		cases = append(cases, genHugeCase(rng, c.SubSeed("k8s-huge", j), j))
+	}
+	// match conditions on the joining action, several sources/streams on 1 or 2 processors
+	for j, n := 0, c.N(28, 280); j < n; j++ {
+		cases = append(cases, genMatchCase(rng, c.SubSeed("join-match", j), "join", j))
+	}
+	for j, n := 0, c.N(14, 140); j < n; j++ {
+		cases = append(cases, genMatchCase(rng, c.SubSeed("join_template-match", j), "join_template", j))
 	}
 
 	var mu sync.Mutex
@@ -95,6 +104,25 @@ func run(c *core.Ctx) {
 			}
 		}
 		c.Count("cases_"+r.Case.Kind, 1)
+		if r.Case.Match != "" {
+			c.Count("cases_with_match_conditions", 1)
+			c.Count("cases_match_"+r.Case.Match, 1)
+			nStreams := r.Case.Streams
+			if nStreams == 0 {
+				nStreams = 1
+			}
+			if r.Case.Sources*nStreams > 1 {
+				switch {
+				case r.Case.SingleProc:
+					c.Count("cases_match_several_streams_on_1_processor", 1)
+				case r.Case.Procs == 1:
+					c.Count("cases_match_several_streams_on_2_processors", 1)
+				}
+			}
+		}
+		if r.Case.OutHold > 0 {
+			c.Count("cases_output_holds_events", 1)
+		}
 		if r.Stats["case_wall_ms"] > 20000 {
 			c.Extra("slow_case_"+r.Case.Name, map[string]any{"case": r.Case, "stats": r.Stats})
 		}
@@ -243,7 +271,12 @@ func run(c *core.Ctx) {
 	// a run that did not observe the behaviours it is about decides nothing
 	need := []string{"runs_joined", "runs_single", "lines_collapsed", "pass_not_joined", "pass_missing_field", "timeout_splits",
 		"run_end_by_start", "run_end_by_other", "run_end_by_missing", "limit_truncated_runs", "pre_discarded",
-		"k8s_split_by_size", "tpl_values_classified", "pauses_done", "k8s_huge_lines_joined", "k8s_lines_joined_after_huge"}
+		"k8s_split_by_size", "tpl_values_classified", "pauses_done", "k8s_huge_lines_joined", "k8s_lines_joined_after_huge",
+		// the output really read joined events late; events that do not satisfy the
+		// match conditions really arrived while a run was open, on few processors
+		"events_read_late", "joined_read_late", "joined_read_late_few_procs", "k8s_joined_read_late",
+		"nomatch_lines_joined", "nomatch_ended_run", "nomatch_start_opened_run", "nomatch_start_passed_idle", "nomatch_passed",
+		"cases_match_several_streams_on_1_processor", "cases_match_several_streams_on_2_processors"}
 	for _, k := range need {
 		if c.Counter(k) == 0 {
 			c.Fatal("expected behaviour class %q was never observed", k)
